@@ -265,7 +265,7 @@ pub fn failing_templates(ev: Ev) -> Vec<String> {
         Ev::I64 => vec!["(1/0)", "(9223372036854775807+1)"],
         Ev::Dec => vec!["(1/0)", "w(-5)", "ln(0)"],
         Ev::Cpx => vec![],
-        _ => vec!["w(-5)", "w(-0.5)"],
+        _ => vec!["w(-5)", "w(-0.5)", "w(1+w(-1))", "w(w(-5))"],
     };
     let mut wraps: Vec<&str> = vec!["C", "-C", "2*C", "C*2", "2(C)", "C+1", "1-C", "C/2", "2^C", "C^2", "abs(C)", "(C)", "C²", "-C*2", "3C-1", "min(1,C)", "max(C,1,2)", "pow(C,2)", "mod(7,C)", "--C"];
     if vocab::has_fact(ev) {
